@@ -285,6 +285,32 @@ def impl_byron_wallet(a):
     return [k.RawCompressed().ToBytes()[1:], k.ChainCode().ToBytes()]
 
 
+def impl_icarus_wallet(a):
+    from bip_utils import Bip44, Bip44Coins
+    scheme, seed, acc, chg, idx = a
+    coin = Bip44Coins.CARDANO_BYRON_ICARUS if scheme == 1 else Bip44Coins.CARDANO_BYRON_LEDGER
+    return Bip44.FromSeed(seed, coin).Purpose().Coin().Account(int(acc)).Change(Bip44Changes(int(chg))) \
+        .AddressIndex(int(idx)).PublicKey().ToAddress()
+
+
+def direct_icarus_wallet(a):
+    """Bip44 Cardano-Byron (Icarus style) address: commits to the key and chain code at m/44'/1815'/acc'/chg/idx
+    recomputed from the published formulas, carries no path attribute, decodes with a valid CRC."""
+    scheme, seed, acc, chg, idx = a
+    if not (0 <= acc < 2**31 and chg in (0, 1) and 0 <= idx < 2**32):
+        return None
+    try:
+        addr = impl_icarus_wallet(a)
+    except Exception:  # noqa
+        return None
+    import cbor2
+    _, pub, cc, _ = ref_walk(scheme, seed, b"", [HARD + 44, HARD + 1815, HARD + acc, chg, idx], 0, [])
+    dec = AdaByronAddrDecoder.DecodeAddr(addr)
+    if dec != blake224(hashlib.sha3_256(cbor2.dumps([0, [0, pub + cc], {}])).digest()):
+        return "Byron-Icarus address does not commit to the derived key and chain code"
+    return None
+
+
 def impl_byron_path_from(a):
     seed, addr = a
     return CardanoByronLegacy.FromSeed(seed).HdPathFromAddress(addr).ToList()
@@ -416,6 +442,8 @@ FUNCS = {
                              impl=lambda a: AdaByronAddrDecoder.DecodeAddr(a[0])),
     "ada_byron_wallet": Func(model=lambda m, a: fix_foreign(m.call("ada_byron_wallet", a[0], Z(a[1]), Z(a[2]), a[3])),
                              impl=impl_byron_wallet, direct=direct_byron_wallet),
+    "ada_icarus_wallet": Func(model=lambda m, a: fix_foreign(m.call("ada_icarus_wallet", a[0], a[1], Z(a[2]), Z(a[3]), Z(a[4]))),
+                              impl=impl_icarus_wallet, direct=direct_icarus_wallet),
     "ada_byron_path_from": Func(model=lambda m, a: fix_foreign(m.call("ada_byron_path_from", a[0], a[1])),
                                 impl=impl_byron_path_from),
     "byron_index_objects": Func(direct=direct_f7),
@@ -693,6 +721,10 @@ def generate_addresses(ctx):
                  ("trailing", Base58Encoder.Encode(cbor2.dumps([cbor2.CBORTag(24, good), zlib.crc32(good)]) + b"\x00"))]
         for tag, a in cases:
             ctx.run("ada_byron_decode", [a], tag)
+    for _ in range(ctx.n(10, 250)):
+        scheme = rng.randrange(2)
+        ctx.run("ada_icarus_wallet", [scheme, rb(rng, rng.choice([16, 24, 32])), rng.choice([0, 1, HARD - 1]), rng.randrange(2),
+                                      rng.choice([0, 1, HARD - 1, HARD, 2**32 - 1, rng.randrange(2**32)])], "bip44-byron-%d" % scheme)
     # --- Byron-legacy wallets: address, path recovery
     for _ in range(ctx.n(10, 250)):
         if not ctx.time_left():
